@@ -15,8 +15,8 @@ def strip_ops(ops):
 class C03(Prop):
     id = "C03"
     lean_module = "ProductMD.Properties.C03"
-    quick_budget = 600
-    thorough_budget = 12000
+    quick_budget = 2100
+    thorough_budget = 36000
     rule = ("manifest = compose section + history of add calls (mostly valid, some refused) built on the real class; real dumps() bytes "
             "= model bytes; loads() into a fresh object: mapping, compose section and header version = model's re-read manifest; "
             "oracle on the real objects: re-read mapping strictly equal (types included) to the built one, compose equal up to the "
@@ -29,6 +29,7 @@ class C03(Prop):
                "'fields read' analysis of the generated rule list (true of the current rules: `final` is read only under `if self.label`)"}
 
     def cases(self, rng, tier, budget):
+        f_rpms.reset_budget()
         kinds = ["rpms", "modules", "extra_files"]
         for i in range(budget):
             f = FORMATS[kinds[i % 3]]
